@@ -225,6 +225,8 @@ def hist_tensor(rows, T, contiguous=True):
     import torch
 
     B = len(rows)
+    if contiguous == "offset":  # a contiguous (T, B) view that does not start at the beginning of its storage (e.g. tokens[1:])
+        return torch.tensor([[0] * B] + [[rows[b][t] for b in range(B)] for t in range(T)], dtype=torch.long).view(T + 1, B)[1:]
     if contiguous:
         return torch.tensor([[rows[b][t] for b in range(B)] for t in range(T)], dtype=torch.long).view(T, B)
     return torch.tensor(rows, dtype=torch.long).view(B, T).T  # a non-contiguous (T, B) view
@@ -271,7 +273,7 @@ def check_chunked(case):
         rows = all_hists(case, T)
         if not rows:
             continue
-        for contig in ((True, False) if T == case["T"] else (True,)):
+        for contig in ((True, False, "offset") if T == case["T"] else (True,)):
             h = hist_tensor(rows, T, contig)
             for chunk in range(1, T + 3):
                 out = lm.calc_full_log_probs_chunked(h, dict(), chunk)
